@@ -90,6 +90,8 @@ func checkC08(ctx *Ctx, r *Report, tier string) {
 		// U8: the column cache samples, and the marching loop draws, on one lattice (rule shared with C06 V6)
 		sampleLattice(ctx, r, "U8", ufn, "newLineCache", "evaluate", "msToLines", 2)
 		r.floor("U8", 2)
+		everyCellFeedsKernel(ctx, r, "U9", ufn, "msToLines")
+		r.floor("U9", 1)
 	}
 	if qfn := ctx.ssaFunc("render", "(*dcache2).processSquare"); qfn == nil {
 		r.undecided("U7", "processSquare", 0, "function not found")
